@@ -1,4 +1,5 @@
 import Bw.Pipeline
+import Bw.Lemmas.Flags
 import Bw.Detect
 /-! # C14 — --enable / --disable select validators without side effects -/
 namespace Bw.Props.C14
@@ -391,5 +392,29 @@ theorem detector_table : Gen.detectorNames.length = 7 ∧ Gen.detectorNames.Nodu
     ∀ v ∈ ["affects", "keep-sorted", "keep-unique", "line-pattern", "line-count", "check-ai", "check-lua"],
       v ∈ Gen.detectorNames := by
   refine ⟨by decide, by decide, by decide⟩
+
+/-! ### the option values are checked before anything is parsed (`src/flags.rs`, model `Bw.Flags`) -/
+
+/-- naming something that is not exactly a registered validator (a fragment, another letter case, padded with blanks,
+    the empty string) rejects the command line, whatever else it holds -/
+theorem unknown_validator_rejected (rawE en dis : List Text) (v : Text) (hv : v ∈ en ++ dis)
+    (hn : ∀ n ∈ Gen.detectorNames, n.toList ≠ v) : ∃ e, Flags.startup rawE en dis = .error e :=
+  Flags.startup_err_of_unknown rawE en dis v hv hn
+
+/-- `--enable` together with `--disable` rejects the command line -/
+theorem both_flags_rejected (rawE en dis : List Text) (he : en ≠ []) (hd : dis ≠ []) :
+    ∃ e, Flags.startup rawE en dis = .error e := Flags.startup_err_of_both rawE en dis he hd
+
+/-- exactly the registered names are accepted, and unchanged -/
+theorem validator_names_exact (v : Text) :
+    (∃ r, Flags.parseValidator v = .ok r) ↔ ∃ n ∈ Gen.detectorNames, n.toList = v := Flags.parseValidator_ok_iff v
+
+/-- well-formed options start the run with exactly the names given (the sets `chosen` / `detected` are computed from) -/
+theorem flags_ok_start_verbatim (rawE en dis : List Text) (exts : List (Text × Text))
+    (hE : Flags.mapM' Flags.parseExtension rawE = .ok exts) (hsup : ∀ e ∈ exts, e.2 ∈ Lookup.table.map (·.1))
+    (hen : ∀ v ∈ en, ∃ n ∈ Gen.detectorNames, n.toList = v) (hdis : ∀ v ∈ dis, ∃ n ∈ Gen.detectorNames, n.toList = v)
+    (hnot : en = [] ∨ dis = []) :
+    ∃ o, Flags.startup rawE en dis = .ok o ∧ o.enabled = en ∧ o.disabled = dis ∧ o.extra = Flags.extensionsMap exts :=
+  Flags.startup_ok rawE en dis exts hE hsup hen hdis hnot
 
 end Bw.Props.C14
